@@ -78,6 +78,7 @@ struct Exchange {
 	bool audited = false;
 	int sync_calls = 0;
 	uint64_t alloc_at_query = 0;
+	unsigned recv_calls_used = 0;
 	int script_index = -1;
 	J plan;
 };
